@@ -350,6 +350,18 @@ func (o *scriptOps) ReadRemoteTl(path string, hint string) ([]byte, error) {
 	return data, err
 }
 
+// safeLookup: a panic of the code under test during a lookup becomes an error value and is reported by the caller
+func safeLookup(cl *sumdb.Client, path, vers string) (lines []string, err error, panicked any) {
+	defer func() {
+		if r := recover(); r != nil {
+			panicked = r
+			lines, err = nil, fmt.Errorf("panic: %v", r)
+		}
+	}()
+	lines, err = cl.Lookup(path, vers)
+	return lines, err, nil
+}
+
 func (s scripted) respTl(w *sumworld.World) string {
 	if s.resp == nil || s.resp.Rec.Tl == "" || s.resp.Rec.Tl == "P" {
 		return "A"
